@@ -1,6 +1,7 @@
 /-
-  `previous_position` / `previous_line_end_position` of a window whose start is at
-  column 0 (the part of C20 not affected by finding F13c).
+  `previous_position` / `previous_line_end_position` of a window, for every start
+  column (after the repair of finding F13c in ef86ab4: a result on the window's first
+  line is re-measured from the window's start position).
 -/
 import TephraProofs.Window
 
@@ -34,21 +35,6 @@ theorem aligned_of_pre0 {m : Metrics} {pre0 : Text} (h : pre0 = [] ∨ EndsBreak
   rcases h with rfl | ⟨u, B, rfl, hB⟩
   · simp
   · exact aligned_of_ends_break hB
-
-/-- `line_start_position` at a cut, for a document starting at line `l0`, column 0 -/
-theorem lineStart_cf {m : Metrics} {pre : Text} (l0 : Nat) (suf : Text) (hwf : Text.WF pre) :
-    lineStartPosition m (pre ++ suf) (cf m l0 pre) =
-      .ok (cf m l0 (pre.take (pre.length - (curLinePre m pre).length))) := by
-  obtain ⟨pre0, cl, I, h1, h2, h3, h4, h5, h6, h7, h8⟩ := last_split m pre
-  rw [lineStartPosition_cut hwf (by simp), h6, h7]
-  have hw0 : Text.WF pre0 := by rw [h1] at hwf; exact (Text.WF_append.mp hwf).1
-  congr 1
-  apply Pos.ext'
-  · simp [h1]
-  · simp only [cf_eq, h2, h3]; simp
-  · rcases h4 with rfl | h4
-    · simp
-    · exact (canonFrom_col_endsBreak _ hw0 h4).symm
 
 theorem endPosition_cut {m : Metrics} {x y : Text} {p : Pos} (hwf : Text.WF (x ++ y))
     (hp : p.byte = bytes x) : endPosition m (x ++ y) p = .ok (canonFrom m p y) := by
@@ -138,13 +124,6 @@ theorem measureTo_walk {m : Metrics} {c : Ch} (hc : c.code = 9) (suf : Text) :
       rw [e, this]
       simp [walk]
 
-theorem lineStart_cf' {m : Metrics} {pre : Text} (l0 : Nat) (suf : Text) (hwf : Text.WF pre)
-    {p : Pos} (hb : p.byte = bytes pre) (hl : p.line = (cf m l0 pre).line) :
-    lineStartPosition m (pre ++ suf) p =
-      .ok (cf m l0 (pre.take (pre.length - (curLinePre m pre).length))) := by
-  rw [← lineStart_cf l0 suf hwf, lineStartPosition_cut hwf hb,
-    lineStartPosition_cut hwf (by simp), hl]
-
 theorem cf_append {m : Metrics} (l0 : Nat) {x y : Text} (hwf : Text.WF (x ++ y))
     (ha : aligned m x y = true) : cf m l0 (x ++ y) = canonFrom m (cf m l0 x) y :=
   canonFrom_append m x y _ hwf ha
@@ -154,10 +133,49 @@ theorem lastUnit_nil (m : Metrics) : lastUnit m [] = none := by
     unfold breakBefore lbCodes; split <;> simp [stripCodes]
   simp [lastUnit, this]
 
-/-- `previous_position` at a cut of a document starting at line `l0`, column 0 -/
-theorem prev_cf {m : Metrics} (l0 : Nat) {pre suf : Text} (hwf : Text.WF (pre ++ suf)) :
-    previousPosition m (pre ++ suf) (cf m l0 pre) =
-      .ok ((lastUnit m pre).map fun u => cf m l0 (pre.take (pre.length - u.length))) := by
+/-- canonical position in a document whose first line has number `l0` and starts at column `c0` -/
+abbrev cg (m : Metrics) (l0 c0 : Nat) (x : Text) : Pos := canonFrom m ⟨0, l0, c0⟩ x
+
+theorem cg_append {m : Metrics} (l0 c0 : Nat) {x y : Text} (hwf : Text.WF (x ++ y))
+    (ha : aligned m x y = true) : cg m l0 c0 (x ++ y) = canonFrom m (cg m l0 c0 x) y :=
+  canonFrom_append m x y _ hwf ha
+
+/-- after the first line the start column plays no role -/
+theorem cg_col_of_multi {m : Metrics} (l0 c0 : Nat) {x : Text} (h : (linesOf m x).length ≠ 1) :
+    (cg m l0 c0 x).col = (cf m l0 x).col := by
+  simp [cg, cf, canonFrom, h]
+
+theorem cg_line (m : Metrics) (l0 c0 : Nat) (x : Text) :
+    (cg m l0 c0 x).line = l0 + ((linesOf m x).length - 1) := rfl
+
+/-- measuring the last line of `u` from column 0 at its start -/
+theorem endPosition_lineStart {m : Metrics} {u : Text} (hwf : Text.WF u) (l : Nat) :
+    endPosition m u ⟨bytes u - bytes (curLinePre m u), l, 0⟩ =
+      .ok ⟨bytes u, l, colWidth m.tab 0 (curLinePre m u)⟩ := by
+  obtain ⟨u0, clu, I, h1, _, _, _, h5, h6, _, _⟩ := last_split m u
+  have hb : bytes u - bytes clu = bytes u0 := by rw [h1]; simp
+  rw [h6, hb]
+  conv => lhs; rw [h1]
+  rw [endPosition_cut (by rw [← h1]; exact hwf) rfl, canonFrom_noBreak _ h5, h1]
+  simp
+
+theorem endPosition_zero {m : Metrics} {x : Text} (hwf : Text.WF x) (l c : Nat) :
+    endPosition m x ⟨0, l, c⟩ = .ok (canonFrom m ⟨0, l, c⟩ x) := by
+  have := endPosition_cut (m := m) (x := []) (y := x) (p := ⟨0, l, c⟩) (by simpa using hwf)
+    (by simp)
+  simpa using this
+
+/-- `previous_position` at a cut of a document starting at line `l0`, column `c0`: the raw
+answer has the right byte and line; its column is right, or is the column measured from 0
+(the latter when it was re-measured from a line start, or is the end of the previous line). -/
+theorem prev_cg {m : Metrics} (l0 c0 : Nat) {pre suf : Text} (hwf : Text.WF (pre ++ suf)) :
+    ∃ r, previousPosition m (pre ++ suf) (cg m l0 c0 pre) = .ok r ∧
+      (lastUnit m pre = none → r = none) ∧
+      ∀ u, lastUnit m pre = some u → ∃ p, r = some p ∧
+        p.byte = bytes (pre.take (pre.length - u.length)) ∧
+        p.line = (cg m l0 c0 (pre.take (pre.length - u.length))).line ∧
+        (p.col = (cg m l0 c0 (pre.take (pre.length - u.length))).col ∨
+         p.col = (cf m l0 (pre.take (pre.length - u.length))).col) := by
   obtain ⟨hw1, hw2⟩ := Text.WF_append.mp hwf
   unfold previousPosition
   simp only [canonFrom_byte, Nat.zero_add, splitAtByte_append suf hw1]
@@ -167,54 +185,58 @@ theorem prev_cf {m : Metrics} (l0 : Nat) {pre suf : Text} (hwf : Text.WF (pre ++
     obtain ⟨hwu, hwB⟩ := Text.WF_append.mp hw1
     have hb : breakAt m B = some [] := by simpa using breakAt_of_map (m := m) [] hBc
     have hbytes : bytes B = lbLen m := by simpa using breakAt_bytes hwB hb
-    have hcf : cf m l0 (u ++ B) = ⟨(cf m l0 u).byte + lbLen m, (cf m l0 u).line + 1, 0⟩ := by
-      rw [cf_append l0 hw1 (aligned_of_starts_break hb), canonFrom_break hwB hb]; simp
+    have hcg : cg m l0 c0 (u ++ B) =
+        ⟨(cg m l0 c0 u).byte + lbLen m, (cg m l0 c0 u).line + 1, 0⟩ := by
+      rw [cg_append l0 c0 hw1 (aligned_of_starts_break hb), canonFrom_break hwB hb]; simp
     have hlu : lastUnit m (u ++ B) = some B := by
       simp only [lastUnit, hbb]; simp
-    obtain ⟨u0, clu, I, h1, _, _, h4, h5, h6, h7, _⟩ := last_split m u
-    have hls := lineStart_cf' (m := m) (pre := u) l0 (B ++ suf) hwu
-      (p := ⟨bytes u, (cf m l0 u).line, 0⟩) rfl rfl
-    rw [h6, h7] at hls
-    have hend : endPosition m u (cf m l0 u0) = .ok (cf m l0 u) := by
-      conv => lhs; rw [h1]
-      rw [endPosition_cut (by rw [← h1]; exact hwu) (by simp)]
-      rw [h1, cf_append l0 (by rw [← h1]; exact hwu) (aligned_of_pre0 h4 clu)]
+    have hls : lineStartPosition m (u ++ (B ++ suf)) ⟨bytes u, (cg m l0 c0 u).line, 0⟩ =
+        .ok ⟨bytes u - bytes (curLinePre m u), (cg m l0 c0 u).line, 0⟩ :=
+      lineStartPosition_cut hwu rfl
     have e1 : csub (bytes (u ++ B)) (lbLen m) = .ok (bytes u) := by
       rw [csub_le (by simp; omega)]; simp [hbytes]
-    have e2 : csub (cf m l0 (u ++ B)).line 1 = .ok (cf m l0 u).line := by
-      rw [hcf]; simp [csub]
-    simp only [e1, e2, Res.ok_bind, Res.pure_eq, hlu, Option.map_some]
-    rw [List.append_assoc, hls]
-    simp only [Res.ok_bind, splitAtByte_append _ hwu, hend]
-    simp
+    have e2 : csub (cg m l0 c0 (u ++ B)).line 1 = .ok (cg m l0 c0 u).line := by
+      rw [hcg]; simp [csub]
+    have e3 : (u ++ B).take ((u ++ B).length - B.length) = u := by simp
+    refine ⟨some ⟨bytes u, (cg m l0 c0 u).line, colWidth m.tab 0 (curLinePre m u)⟩, ?_, ?_, ?_⟩
+    · simp only [e1, e2, Res.ok_bind, Res.pure_eq]
+      rw [List.append_assoc, hls]
+      simp only [Res.ok_bind, splitAtByte_append _ hwu, endPosition_lineStart hwu]
+    · rw [hlu]; simp
+    · intro u' hu'
+      rw [hlu] at hu'; injection hu' with hu'; subst hu'
+      rw [e3]
+      exact ⟨_, rfl, rfl, rfl, Or.inr (by rw [cf_eq])⟩
   | none =>
     cases hrev : pre.reverse with
     | nil =>
       have : pre = [] := by simpa using hrev
       subst this
-      simp [lastUnit_nil]
+      exact ⟨none, rfl, fun _ => rfl, by simp [lastUnit_nil]⟩
     | cons c R =>
       have hpre : pre = R.reverse ++ [c] := by
         have := congrArg List.reverse hrev; simpa using this
+      have hbb0 := hbb
       rw [hrev] at hbb
       obtain ⟨hb1, hal⟩ := lastChar_facts hbb
       have hwR : Text.WF R.reverse := by rw [hpre] at hw1; exact (Text.WF_append.mp hw1).1
       have hwc : c.WF := by
         rw [hpre] at hw1; exact (Text.WF_cons.mp (Text.WF_append.mp hw1).2).1
-      have hcf : cf m l0 pre = stepCh m (cf m l0 R.reverse) c := by
-        rw [hpre, cf_append l0 (by rw [← hpre]; exact hw1) hal, canonFrom_nobreak hwc hb1]; simp
+      have hcg : cg m l0 c0 pre = stepCh m (cg m l0 c0 R.reverse) c := by
+        rw [hpre, cg_append l0 c0 (by rw [← hpre]; exact hw1) hal, canonFrom_nobreak hwc hb1]; simp
+      have hline : (cg m l0 c0 pre).line = (cg m l0 c0 R.reverse).line := by
+        rw [hcg]; unfold stepCh; split <;> rfl
       have hlu : lastUnit m pre = some [c] := by
-        have hbb' : breakBefore m pre.reverse = none := by rw [hrev]; exact hbb
-        simp only [lastUnit, hbb']
+        simp only [lastUnit, hbb0]
         rw [hpre]; simp
       have htake : pre.take (pre.length - [c].length) = R.reverse := by rw [hpre]; simp
-      simp only [hlu, Option.map_some, htake]
-      split
-      · -- a tab: re-measure from the line start
-        rename_i h9
+      by_cases h9 : c.code = 9
+      · -- a tab: re-measured from the line start (column 0)
         obtain ⟨pre0, cl, I, h1, _, _, h4, h5, h6, h7, _⟩ := last_split m pre
-        have hls := lineStart_cf (m := m) (pre := pre) l0 suf hw1
-        rw [h6, h7] at hls
+        have hb0 : bytes pre - bytes cl = bytes pre0 := by rw [h1]; simp
+        have hls : lineStartPosition m (pre ++ suf) (cg m l0 c0 pre) =
+            .ok ⟨bytes pre0, (cg m l0 c0 pre).line, 0⟩ := by
+          rw [lineStartPosition_cut hw1 (by simp), h6, hb0]
         have hclne : cl ≠ [] := by
           intro e; subst e
           simp at h1; subst h1
@@ -236,41 +258,59 @@ theorem prev_cf {m : Metrics} (l0 : Nat) {pre suf : Text} (hwf : Text.WF (pre ++
         have hwcl'' : Text.WF cl'' := by
           rw [hR] at hwR; exact (Text.WF_append.mp hwR).2
         have hsize : d.size = 1 := hwc.2 (Or.inl h9)
-        have e1 : csub (bytes pre) 1 = .ok ((cf m l0 pre0).byte + bytes cl'') := by
+        have e1 : csub (bytes pre) 1 = .ok (bytes pre0 + bytes cl'') := by
           rw [csub_le (by rw [hpre]; simp; omega)]
           rw [h1, hcl]; simp [hsize]
-        have hsplit : splitAtByte (pre ++ suf) (cf m l0 pre0).byte = some (pre0, cl'' ++ d :: suf) := by
+        have hsplit : splitAtByte (pre ++ suf) (bytes pre0) = some (pre0, cl'' ++ d :: suf) := by
           have : pre ++ suf = pre0 ++ (cl'' ++ d :: suf) := by rw [h1, hcl]; simp
-          rw [this]; simpa using splitAtByte_append (cl'' ++ d :: suf) hw0
-        have hmeas := measureTo_walk (m := m) h9 suf cl'' (cf m l0 pre0) hwcl''
-          (by rw [← hcl]; exact h5)
-        simp only [hls, Res.ok_bind, e1, hsplit, hmeas, Res.ok_bind']
-        rw [← canonFrom_noBreak_walk _ (NoBreak_of_append_left (by rw [← hcl]; exact h5)) hwcl'',
-          ← cf_append l0 (by rw [← hR]; exact hwR) (aligned_of_pre0 h4 cl''), hR]
+          rw [this]; exact splitAtByte_append (cl'' ++ d :: suf) hw0
+        have hnb : NoBreak m cl'' := NoBreak_of_append_left (by rw [← hcl]; exact h5)
+        have hmeas : measureTo m (bytes pre0 + bytes cl'') ⟨bytes pre0, (cg m l0 c0 pre).line, 0⟩
+            (cl'' ++ d :: suf) = .ok (walk m ⟨bytes pre0, (cg m l0 c0 pre).line, 0⟩ cl'') :=
+          measureTo_walk (m := m) h9 suf cl'' ⟨bytes pre0, (cg m l0 c0 pre).line, 0⟩ hwcl''
+            (by rw [← hcl]; exact h5)
+        have hcol0 : (cf m l0 pre0).col = 0 := by
+          rcases h4 with rfl | h4
+          · simp
+          · exact canonFrom_col_endsBreak _ hw0 h4
+        refine ⟨some (walk m ⟨bytes pre0, (cg m l0 c0 pre).line, 0⟩ cl''), ?_, ?_, ?_⟩
+        · simp only [if_pos h9, hls, Res.ok_bind, e1, hsplit, hmeas, Res.ok_bind']
+        · rw [hlu]; simp
+        · intro u' hu'
+          rw [hlu] at hu'; injection hu' with hu'; subst hu'
+          rw [htake]
+          refine ⟨_, rfl, ?_, ?_, Or.inr ?_⟩
+          · rw [walk_eq m cl'' _ hwcl'', hR]; simp
+          · rw [walk_eq m cl'' _ hwcl'', hline]
+          · rw [walk_eq m cl'' _ hwcl'', hR,
+              cf_append l0 (by rw [← hR]; exact hwR) (aligned_of_pre0 h4 cl''),
+              canonFrom_noBreak _ hnb, hcol0]
       · -- an ordinary character
-        rename_i h9
         have e1 : csub (bytes pre) c.size = .ok (bytes R.reverse) := by
           rw [csub_le (by rw [hpre]; simp)]; rw [hpre]; simp
-        have hcol : (cf m l0 pre).col = (cf m l0 R.reverse).col + c.width := by
-          rw [hcf]; simp [stepCh, h9]
-        have hline : (cf m l0 pre).line = (cf m l0 R.reverse).line := by
-          rw [hcf]; simp [stepCh, h9]
-        have e2 : csub (cf m l0 pre).col c.width = .ok (cf m l0 R.reverse).col := by
+        have hcol : (cg m l0 c0 pre).col = (cg m l0 c0 R.reverse).col + c.width := by
+          rw [hcg]; simp [stepCh, h9]
+        have e2 : csub (cg m l0 c0 pre).col c.width = .ok (cg m l0 c0 R.reverse).col := by
           rw [hcol, csub_le (by omega)]; simp
-        simp only [e1, e2, Res.ok_bind, hline]
-        congr 2
-        apply Pos.ext' <;> simp
+        refine ⟨some ⟨bytes R.reverse, (cg m l0 c0 pre).line, (cg m l0 c0 R.reverse).col⟩,
+          ?_, ?_, ?_⟩
+        · simp only [if_neg h9, e1, e2, Res.ok_bind, Res.pure_eq]
+        · rw [hlu]; simp
+        · intro u' hu'
+          rw [hlu] at hu'; injection hu' with hu'; subst hu'
+          rw [htake]
+          exact ⟨_, rfl, rfl, hline, Or.inl rfl⟩
 
-/-! ### the window, when it starts at column 0 -/
+/-! ### the window -/
 
-theorem shift_cf {m : Metrics} {wa x : Text} (hcol : (canon m wa).col = 0)
-    (hwf : Text.WF (wa ++ x)) (ha : aligned m wa x = true) :
+theorem shift_cg {m : Metrics} {wa x : Text} (hwf : Text.WF (wa ++ x))
+    (ha : aligned m wa x = true) :
     canon m (wa ++ x) =
-      ⟨(cf m (canon m wa).line x).byte + bytes wa, (cf m (canon m wa).line x).line,
-        (cf m (canon m wa).line x).col⟩ := by
+      ⟨(cg m (canon m wa).line (canon m wa).col x).byte + bytes wa,
+        (cg m (canon m wa).line (canon m wa).col x).line,
+        (cg m (canon m wa).line (canon m wa).col x).col⟩ := by
   rw [canon_append hwf ha, canonFrom_rebase]
   congr 1
-  apply Pos.ext' <;> simp [hcol]
 
 theorem keepIfIn_some_lt {w : Span} {q : Pos} (h : q.byte < w.s.byte) :
     keepIfIn w (some q) = none := by
@@ -335,32 +375,61 @@ theorem lastUnit_append {m : Metrics} {wa pre' : Text} (hne : pre' ≠ [])
 section fields
 variable {m : Metrics} {wa pre' suf' wz : Text}
 
-/-- raw answer of the window's `previous_position` (window starting at column 0) -/
-theorem win_prev (hcol : (canon m wa).col = 0) (hwf : Text.WF (wa ++ pre' ++ suf'))
+/-- answer of the window's `previous_position` (any start column): the parent's -/
+theorem win_prev (hwf : Text.WF (wa ++ pre' ++ suf'))
     (ha1 : aligned m wa pre' = true) :
     Source.previousPosition ⟨pre' ++ suf', m, canon m wa⟩ (canon m (wa ++ pre')) =
       .ok ((lastUnit m pre').map fun u => canon m (wa ++ pre'.take (pre'.length - u.length))) := by
   obtain ⟨hw12, hw3⟩ := Text.WF_append.mp hwf
   obtain ⟨hw1, hw2⟩ := Text.WF_append.mp hw12
   have hp : (⟨(canon m (wa ++ pre')).byte - (canon m wa).byte, (canon m (wa ++ pre')).line,
-      (canon m (wa ++ pre')).col⟩ : Pos) = cf m (canon m wa).line pre' := by
-    rw [shift_cf hcol hw12 ha1]; apply Pos.ext' <;> simp
+      (canon m (wa ++ pre')).col⟩ : Pos) = cg m (canon m wa).line (canon m wa).col pre' := by
+    rw [shift_cg hw12 ha1]; apply Pos.ext' <;> simp
+  obtain ⟨r, hr, hnone, hsome⟩ :=
+    prev_cg (m := m) (canon m wa).line (canon m wa).col (Text.WF_append.mpr ⟨hw2, hw3⟩)
   unfold Source.previousPosition
   simp only
-  rw [withByteOffset_eq (by simp) (by rw [hp]; exact prev_cf _ (Text.WF_append.mpr ⟨hw2, hw3⟩))]
+  rw [withByteOffset_eq (by simp) (by rw [hp]; exact hr)]
+  simp only [Res.ok_bind]
   cases hu : lastUnit m pre' with
-  | none => simp
+  | none => rw [hnone hu]; simp
   | some u =>
+    obtain ⟨p, rfl, hpb, hpl, hpc⟩ := hsome u hu
+    obtain ⟨x, d, hpre, hx⟩ : ∃ x d, pre' = x ++ d ∧ pre'.take (pre'.length - u.length) = x :=
+      ⟨_, _, (List.take_append_drop (pre'.length - u.length) pre').symm, rfl⟩
     simp only [Option.map_some, canon_byte]
-    have hpre : pre' = pre'.take (pre'.length - u.length) ++ pre'.drop (pre'.length - u.length) :=
-      (List.take_append_drop _ _).symm
-    have hwx : Text.WF (wa ++ pre'.take (pre'.length - u.length)) := by
-      rw [hpre] at hw2; exact Text.WF_append.mpr ⟨hw1, (Text.WF_append.mp hw2).1⟩
-    have hax : aligned m wa (pre'.take (pre'.length - u.length)) = true := by
+    rw [hx] at hpb hpl hpc ⊢
+    have hwx' : Text.WF x := by rw [hpre] at hw2; exact (Text.WF_append.mp hw2).1
+    have hwx : Text.WF (wa ++ x) := Text.WF_append.mpr ⟨hw1, hwx'⟩
+    have hax : aligned m wa x = true := by
       rw [hpre] at ha1; exact aligned_of_append_right ha1
-    rw [shift_cf hcol hwx hax]
+    have hsplit : splitAtByte (pre' ++ suf') (bytes x) = some (x, d ++ suf') := by
+      rw [hpre, List.append_assoc]; exact splitAtByte_append _ hwx'
+    have hsh := shift_cg hwx hax
+    by_cases hcond : p.line = (canon m wa).line ∧ (canon m wa).col ≠ 0
+    · have hcs : csub (p.byte + bytes wa) (bytes wa) = .ok (bytes x) := by
+        rw [csub_le (by omega), hpb]; simp
+      rw [if_pos hcond]
+      simp only [hcs, hsplit, endPosition_zero hwx']
+      rw [hsh]
+    · rw [if_neg hcond, hsh]
+      congr 2
+      apply Pos.ext'
+      · simp [hpb]
+      · exact hpl
+      · rcases hpc with hpc | hpc
+        · exact hpc
+        · rw [hpc]
+          by_cases hc0 : (canon m wa).col = 0
+          · rw [hc0]
+          · have hne : (linesOf m x).length ≠ 1 := by
+              intro h1
+              apply hcond
+              refine ⟨?_, hc0⟩
+              rw [hpl, cg_line, h1]; simp
+            exact (cg_col_of_multi _ _ hne).symm
 
-theorem wfield_prev (hcol : (canon m wa).col = 0) (hwf : Text.WF (wa ++ (pre' ++ suf') ++ wz))
+theorem wfield_prev (hwf : Text.WF (wa ++ (pre' ++ suf') ++ wz))
     (hw1 : aligned m wa (pre' ++ suf' ++ wz) = true) :
     Source.previousPosition ⟨pre' ++ suf', m, canon m wa⟩ (canon m (wa ++ pre')) =
       .ok (keepIfIn ⟨canon m wa, canon m (wa ++ (pre' ++ suf'))⟩
@@ -369,7 +438,7 @@ theorem wfield_prev (hcol : (canon m wa).col = 0) (hwf : Text.WF (wa ++ (pre' ++
     have := (Text.WF_append.mp hwf).1; simpa [List.append_assoc] using this
   have hal : aligned m wa pre' = true := by
     rw [List.append_assoc] at hw1; exact aligned_of_append_right hw1
-  rw [win_prev hcol hwf' hal]
+  rw [win_prev hwf' hal]
   simp only [navSpec]
   by_cases hne : pre' = []
   · subst hne
@@ -405,18 +474,6 @@ theorem wfield_prev (hcol : (canon m wa).col = 0) (hwf : Text.WF (wa ++ (pre' ++
 
 /-! ### previous line end -/
 
-theorem prevLineEnd_cf (l0 : Nat) {pre suf : Text} (hwf : Text.WF (pre ++ suf)) :
-    previousLineEndPosition m (pre ++ suf) (cf m l0 pre) =
-      .ok ((lastUnit m (pre.take (pre.length - (curLinePre m pre).length))).map fun u =>
-        cf m l0 ((pre.take (pre.length - (curLinePre m pre).length)).take
-          ((pre.take (pre.length - (curLinePre m pre).length)).length - u.length))) := by
-  obtain ⟨pre0, cl, I, h1, _, _, h4, h5, h6, h7, _⟩ := last_split m pre
-  unfold previousLineEndPosition
-  rw [lineStart_cf l0 suf (Text.WF_append.mp hwf).1, h6, h7]
-  simp only [Res.ok_bind]
-  have e : pre ++ suf = pre0 ++ (cl ++ suf) := by rw [h1]; simp
-  rw [e, prev_cf l0 (by rw [← e]; exact hwf)]
-
 theorem lastUnit_endsBreak {u B : Text} (hB : B.map (·.code) = lbCodes m) :
     lastUnit m (u ++ B) = some B := by
   have hs : breakBefore m (u ++ B).reverse = some u.reverse := by
@@ -439,7 +496,7 @@ theorem bytes_take_lt {x : Text} {n : Nat} (hwf : Text.WF x) (h : n < x.length) 
   have := bytes_pos hw hd
   omega
 
-theorem wfield_prevLineEnd (hcol : (canon m wa).col = 0)
+theorem wfield_prevLineEnd
     (hwf : Text.WF (wa ++ (pre' ++ suf') ++ wz))
     (hw1 : aligned m wa (pre' ++ suf' ++ wz) = true) :
     Source.previousLineEndPosition ⟨pre' ++ suf', m, canon m wa⟩ (canon m (wa ++ pre')) =
@@ -451,14 +508,26 @@ theorem wfield_prevLineEnd (hcol : (canon m wa).col = 0)
   obtain ⟨hwa, hw2⟩ := Text.WF_append.mp hw12
   have hal : aligned m wa pre' = true := by
     rw [List.append_assoc] at hw1; exact aligned_of_append_right hw1
-  have hp : (⟨(canon m (wa ++ pre')).byte - (canon m wa).byte, (canon m (wa ++ pre')).line,
-      (canon m (wa ++ pre')).col⟩ : Pos) = cf m (canon m wa).line pre' := by
-    rw [shift_cf hcol hw12 hal]; apply Pos.ext' <;> simp
   obtain ⟨p0, cl, I, h1, h2, h3, h4, h5, h6, h7, h8⟩ := last_split m pre'
+  -- the window's own line start is the canonical position of the cut before the current line
+  have hls : Source.lineStartPosition ⟨pre' ++ suf', m, canon m wa⟩ (canon m (wa ++ pre')) =
+      .ok (canon m (wa ++ p0)) := by
+    rw [win_lineStart hw12 hal suf', h6, h7]
+    split
+    · rename_i hl1
+      have := take_curLinePre_of_single hl1
+      rw [h6, h7] at this
+      rw [this]; simp
+    · rfl
+  have etext : pre' ++ suf' = p0 ++ (cl ++ suf') := by rw [h1]; simp
+  have hwfp : Text.WF (wa ++ p0 ++ (cl ++ suf')) := by
+    rw [List.append_assoc, ← etext, ← List.append_assoc]; exact hwf'
+  have hal0 : aligned m wa p0 = true := by rw [h1] at hal; exact aligned_of_append_right hal
+  have hprev : Source.previousPosition ⟨pre' ++ suf', m, canon m wa⟩ (canon m (wa ++ p0)) =
+      .ok ((lastUnit m p0).map fun u => canon m (wa ++ p0.take (p0.length - u.length))) := by
+    rw [etext]; exact win_prev hwfp hal0
   unfold Source.previousLineEndPosition
-  simp only
-  rw [withByteOffset_eq (by simp)
-    (by rw [hp]; exact prevLineEnd_cf _ (Text.WF_append.mpr ⟨hw2, hw3⟩)), h6, h7]
+  simp only [hls, Res.ok_bind, hprev]
   simp only [navSpec, curLinePre_append hal]
   by_cases hI : I = []
   · -- the cut is on the window's first line
@@ -518,13 +587,7 @@ theorem wfield_prevLineEnd (hcol : (canon m wa).col = 0)
     have e3 : (u ++ B).take ((u ++ B).length - B.length) = u := by
       rw [List.take_left' (by simp)]
     simp only [lastUnit_endsBreak hBc, Option.map_some, if_neg hlen, if_neg hlen2, e, e2, e3]
-    have hwu : Text.WF (wa ++ u) := by
-      rw [h1] at hw2
-      exact Text.WF_append.mpr ⟨hwa, (Text.WF_append.mp (Text.WF_append.mp hw2).1).1⟩
-    have hau : aligned m wa u = true := by
-      rw [h1, List.append_assoc] at hal; exact aligned_of_append_right hal
-    simp only [canon_byte]
-    rw [← shift_cf hcol hwu hau, keepIfIn_some (by simp)]
+    rw [keepIfIn_some (by simp)]
     simp only [canon_byte, bytes_append]
     have := congrArg bytes h1
     simp only [bytes_append] at this
